@@ -6,8 +6,6 @@ import (
 	"reflect"
 	"strconv"
 	"strings"
-
-	"github.com/cloudwego/frugal"
 )
 
 func init() {
@@ -21,6 +19,8 @@ func init() {
 	extraOps["badarg"] = opBadArg
 }
 
+const noHooks = "(harness-error 6e6f686f6f6b73)" // "nohooks"
+
 func atoi(x *sx) int {
 	n, _ := strconv.Atoi(x.atom)
 	return n
@@ -28,11 +28,14 @@ func atoi(x *sx) int {
 
 // resolve TYPE: what internal/defs makes of the struct definition
 func opResolve(a []*sx) string {
+	if !hooksAvailable {
+		return noHooks
+	}
 	t, ok := verifTypes[a[0].atom]
 	if !ok {
 		return "(harness-error " + hexs("unknown type") + ")"
 	}
-	s, err := frugal.VerifResolve(t)
+	s, err := hkResolve(t)
 	if err != nil {
 		if strings.HasPrefix(err.Error(), "panic:") {
 			return panicStr(err.Error())
@@ -44,13 +47,16 @@ func opResolve(a []*sx) string {
 
 // span (n align) (n align) ...
 func opSpan(a []*sx) string {
+	if !hooksAvailable {
+		return noHooks
+	}
 	reqs := make([][2]int, 0, len(a))
 	for _, r := range a {
 		reqs = append(reqs, [2]int{atoi(r.list[0]), atoi(r.list[1])})
 	}
 	var sb strings.Builder
 	sb.WriteString("(ok")
-	for _, r := range frugal.VerifSpan(reqs) {
+	for _, r := range hkSpan(reqs) {
 		fmt.Fprintf(&sb, " (%d %d %d)", r[0], r[1], r[2])
 	}
 	sb.WriteString(")")
@@ -59,13 +65,16 @@ func opSpan(a []*sx) string {
 
 // bitset (op id) ...   op: 0 set, 1 unset, 2 test
 func opBitset(a []*sx) string {
+	if !hooksAvailable {
+		return noHooks
+	}
 	ops := make([][2]int, 0, len(a))
 	for _, r := range a {
 		ops = append(ops, [2]int{atoi(r.list[0]), atoi(r.list[1])})
 	}
 	var sb strings.Builder
 	sb.WriteString("(ok")
-	for _, b := range frugal.VerifBitset(ops) {
+	for _, b := range hkBitset(ops) {
 		if b {
 			sb.WriteString(" 1")
 		} else {
@@ -78,6 +87,9 @@ func opBitset(a []*sx) string {
 
 // descmap (op key val) ...   op: 0 set, 1 get
 func opDescMap(a []*sx) string {
+	if !hooksAvailable {
+		return noHooks
+	}
 	ops := make([][3]int, 0, len(a))
 	for _, r := range a {
 		v := 0
@@ -88,7 +100,7 @@ func opDescMap(a []*sx) string {
 	}
 	var sb strings.Builder
 	sb.WriteString("(ok")
-	for _, x := range frugal.VerifDescMap(ops) {
+	for _, x := range hkDescMap(ops) {
 		fmt.Fprintf(&sb, " %d", x)
 	}
 	sb.WriteString(")")
@@ -97,16 +109,22 @@ func opDescMap(a []*sx) string {
 
 // unknown HEX (off sz) ...
 func opUnknown(a []*sx) string {
+	if !hooksAvailable {
+		return noHooks
+	}
 	b, _ := hex.DecodeString(a[0].atom)
 	adds := make([][2]int, 0, len(a))
 	for _, r := range a[1:] {
 		adds = append(adds, [2]int{atoi(r.list[0]), atoi(r.list[1])})
 	}
-	return "(ok " + hexs(string(frugal.VerifUnknown(b, adds))) + ")"
+	return "(ok " + hexs(string(hkUnknown(b, adds))) + ")"
 }
 
 func opDispatch(a []*sx) string {
-	return "(ok " + strings.Join(strings.Fields(strings.Join(frugal.VerifDispatch(), " ; ")), "_") + ")"
+	if !hooksAvailable {
+		return noHooks
+	}
+	return "(ok " + strings.Join(strings.Fields(strings.Join(hkDispatch(), " ; ")), "_") + ")"
 }
 
 // api3 TYPE: the three entry points on a zero value (pointer argument) of a
@@ -203,6 +221,29 @@ func opBadArg(a []*sx) string {
 		v = reflect.Zero(reflect.PtrTo(t)).Interface()
 	case "func":
 		v = func() {}
+	case "ptrslice":
+		x := []int32{1}
+		v = &x
+	case "ptrmap":
+		x := map[string]int32{}
+		v = &x
+	case "nilptrint":
+		v = (*int)(nil)
+	case "nilptrptr":
+		v = reflect.Zero(reflect.PtrTo(reflect.PtrTo(t))).Interface()
+	case "float":
+		v = 1.5
+	case "array":
+		v = [2]int32{1, 2}
+	case "chan":
+		v = make(chan int)
+	case "ptriface":
+		var x interface{} = reflect.New(t).Interface()
+		v = &x
+	case "ptr":
+		v = reflect.New(t).Interface()
+	case "struct":
+		v = reflect.New(t).Elem().Interface()
 	}
 	sz := safeSize(v)
 	buf := make([]byte, 16)
